@@ -106,6 +106,15 @@ def main():
         elif r['status'] == 'refuted':
             tri = triage.triage(units[n], units, r, a.prop, tier=a.tier)
             r['triage'] = {k: v for k, v in tri.items() if k != 'log'}
+            own = units[n].get('internal_of')
+            if tri['verdict'] == 'violation' and own and own in units:
+                # this fragment speaks about an INTERNAL data structure of its function (a local table, a mark array): a different but
+                # correct representation would refute it.  The function's own contract is the arbiter: if that unit still holds, the
+                # fragment's refutation only says "the internals changed" -- undecided; if it fails too, it reports the violation itself.
+                ro = results.get(own) if own in results and results[own]['status'] in ('proved', 'refuted') else driver.verify_unit(dict(units[own]), units, tier=a.tier)
+                if ro['status'] == 'proved':
+                    tri = {'verdict': 'undecided', 'replay': tri.get('replay'),
+                           'reason': 'internal representation changed (fragment refuted) but the contract of the enclosing function (unit %s) still holds up to its bound -- see %s' % (own, tri.get('replay'))}
             if tri['verdict'] == 'violation':
                 rest = []
                 for fo in r['failed']:
